@@ -1254,6 +1254,17 @@ class Interp:
         if self.registry is not None and not force_inline:
             h = self.registry.call_contracts.get(fi.qualname)
             if h is not None:
+                # a contract sees its arguments positionally in the callee's parameter order, whichever way the call spells them:
+                # keyword arguments that name a parameter right after the positional ones are moved into place (the contract's
+                # kwargs.get(name) still finds them: they stay in kwargs as well)
+                args = list(args)
+                params = [a.arg for a in fi.node.args.args]
+                if fi.kind == "classmethod" and params and params[0] == "cls" and not (args and isinstance(args[0], ClassInfo)):
+                    params = params[1:]
+                k = len(args)
+                while k < len(params) and params[k] in kwargs:
+                    args.append(kwargs[params[k]])
+                    k += 1
                 return h(self, args, kwargs, node)
         if self.depth >= self.inline_depth + 12:
             raise Unsupported("inline depth exceeded at %s" % fi.qualname)
